@@ -237,6 +237,20 @@ func (w *Worker) ensureInit(pkg *ssa.Package) {
 	}
 	path := pkg.Pkg.Path()
 	if !w.E.initAllowed(path) {
+		if path == "os" {
+			// package os' initializer touches the process (std streams, args) and is not run; its portable error
+			// values are plain aliases of io/fs' and are set here, so that os.IsNotExist & co. work on them
+			if fs := w.E.Prog.ImportedPackage("io/fs"); fs != nil {
+				w.ensureInit(fs)
+				for _, n := range []string{"ErrInvalid", "ErrPermission", "ErrExist", "ErrNotExist", "ErrClosed"} {
+					og, _ := pkg.Members[n].(*ssa.Global)
+					fg, _ := fs.Members[n].(*ssa.Global)
+					if og != nil && fg != nil && w.globals[fg] != nil {
+						*w.globals[og] = *w.globals[fg]
+					}
+				}
+			}
+		}
 		return
 	}
 	w.E.buildPkg(pkg)
